@@ -2,6 +2,7 @@
 
 from __future__ import annotations
 
+import asyncio
 import json
 import os
 import shutil
@@ -97,7 +98,7 @@ def _mutated(draw) -> dict:
             parent[draw(st.sampled_from(("7", "x", "300")))] = parent[last]
         elif op == "wrong-container":
             parent[last] = [parent[last]] if draw(st.booleans()) else {"0": parent[last]}
-    return {"kind": "content", "origin": "mutated", "data": json.dumps(doc)}
+    return {"kind": "content", "origin": "mutated", "data": json.dumps(doc), "prefill": draw(st.booleans())}
 
 
 @st.composite
@@ -142,7 +143,7 @@ def enumerate_cases(tier: str):
         yield {"kind": "content", "origin": "deep", "data": "[" * depth}
         yield {"kind": "content", "origin": "deep", "data": '{"1":' * depth}
         yield {"kind": "content", "origin": "deep", "data": '{"1":{"node_id":1,"node_type":1,"protocol_version":"2","children":' + '{"1":' * depth}
-    for what in ("missing-empty-registry", "missing-with-registry", "empty-file", "directory"):
+    for what in ("missing-empty-registry", "missing-with-registry", "empty-file", "directory", "missing-after-start"):
         yield {"kind": "special", "what": what}
     fixture = {"1": {"sensor_id": 1, "children": {"1": {"id": 1, "type": 38, "description": "", "values": {"49": "x"}}}, "type": 17, "sketch_name": "s", "sketch_version": "1", "battery_level": 0, "protocol_version": "2.3.2", "heartbeat": 0}}
     text = json.dumps(fixture, indent=2)
@@ -167,6 +168,13 @@ def enumerate_cases(tier: str):
         doc = json.loads(text)
         doc["1"]["children"]["1"]["values"] = {"49": value, "x": "1"}
         yield {"kind": "content", "origin": "mutated", "data": json.dumps(doc)}
+    for ckey, cid in (("7", 1), ("1", 7), ("x", 1), ("-1", 1), ("1", 300), ("1", -1), ("01", 1)):
+        for layout in ("native", "legacy"):
+            for values in ({"0": "1"}, {}):
+                child = {"child_id": cid, "child_type": 6, "description": "", "values": values} if layout == "native" else {"id": cid, "type": 6, "description": "", "values": values}
+                node = {"node_id": 1, "node_type": 17, "protocol_version": "2.0", "children": {ckey: child}} if layout == "native" else {"sensor_id": 1, "type": 17, "protocol_version": "2.0", "children": {ckey: child}}
+                for prefill in (False, True):
+                    yield {"kind": "content", "origin": "key-mismatch", "data": json.dumps({"1": node}), "prefill": prefill}
     native = {"1": {"node_id": 1, "node_type": 17, "protocol_version": "2.0", "sketch_name": "", "sketch_version": "", "battery_level": 0, "heartbeat": 0, "sleeping": False,
                     "children": {"1": {"child_id": 1, "child_type": 6, "description": "", "values": {"0": "1"}}}}}
     for key in list(native["1"]):
@@ -197,6 +205,12 @@ def run_case(case: dict) -> Outcome:
                 open(path, "w").close()
             elif what == "directory":
                 os.mkdir(path)
+            elif what == "missing-after-start":
+                env.install_registry(gateway.nodes, {"4": {"sketch_name": "started first"}})
+                await gateway.persistence.start()
+                await asyncio.sleep(0)
+                if os.path.exists(path):
+                    os.unlink(path)  # the file disappears (or never existed) while the scheduled save is asleep
             before = env.snapshot(gateway.nodes)
             try:
                 await gateway.persistence.load()
@@ -210,6 +224,14 @@ def run_case(case: dict) -> Outcome:
                 return fail("special:directory:no-error", "path is a directory but load returned")
             if env.snapshot(gateway.nodes) != before:
                 return fail(f"special:{what}:registry-changed", f"{what}: registry changed by load")
+            if what == "missing-after-start":
+                try:
+                    exists = os.path.isfile(path)
+                finally:
+                    await gateway.persistence.stop()
+                if not exists:
+                    return fail("special:missing:not-created", "missing file was not created by load (scheduled save already started)")
+                return None
             if what.startswith("missing"):
                 if not os.path.isfile(path):
                     return fail("special:missing:not-created", "missing file was not created by load")
@@ -220,6 +242,9 @@ def run_case(case: dict) -> Outcome:
         data = case["data"].encode("latin-1", "replace")
         with open(path, "wb") as fil:
             fil.write(data)
+        if case.get("prefill"):
+            # reloading into a registry that already holds nodes (second session, or nodes registered before the load)
+            env.install_registry(gateway.nodes, {"1": {"children": {"1": {"child_type": 6, "values": {"0": "old"}}}}, "3": {"children": {"9": {"child_type": 3}}}})
         try:
             json.loads(data.decode("utf-8"))
             info["json_ok"] = True
